@@ -6,11 +6,14 @@ import (
 	"os"
 	"path/filepath"
 	"sort"
+	"strings"
 	"sync"
+	"sync/atomic"
 	"testing/synctest"
 	"time"
 
 	"github.com/arm-doe/sts"
+	"github.com/arm-doe/sts/zzverif/vfs"
 )
 
 // C09 — the receiver's record of partly received files is sound.
@@ -29,6 +32,7 @@ type c09Op struct {
 	Ver    int    `json:"ver"`
 	Conc   int    `json:"conc,omitempty"` // >0: member of a concurrent group
 	Ack    bool   `json:"ack"`
+	Fault  string `json:"fault,omitempty"` // companion-enospc: the write of the part record hits a full disk
 }
 
 type c09Scenario struct {
@@ -79,6 +83,22 @@ func c09Run(c *Ctx, idx int, rng *rand.Rand, sc *c09Scenario, dir string) {
 	rs := newRecvSide(dir, false)
 	defer rs.close()
 	concurrent := rng.Intn(3) == 0
+	// storage fault (sequential sequences): when armed, the next write of a companion's
+	// temporary file lands on a full device (the temporary name is made a link to
+	// /dev/full just before the write: open succeeds, write fails with ENOSPC)
+	var faultArmed atomic.Bool
+	var faultPath atomic.Value
+	if !concurrent {
+		rs.Dom.Before = func(ev *vfs.Event) error {
+			if ev.Op == vfs.OpWriteFile && strings.HasSuffix(ev.Path, ".cmp.lck") && faultArmed.CompareAndSwap(true, false) {
+				_ = os.Remove(ev.Path)
+				if os.Symlink("/dev/full", ev.Path) == nil {
+					faultPath.Store(ev.Path)
+				}
+			}
+			return nil
+		}
+	}
 	if concurrent {
 		// permute goroutine order at every intercepted file-system call.  (No
 		// virtual sleep here: these calls are made under the Stage's path locks, and
@@ -327,7 +347,23 @@ func c09Run(c *Ctx, idx int, rng *rand.Rand, sc *c09Scenario, dir string) {
 		}
 		rs.Stage.Prepare([]sts.Binned{d})
 		prepareModel(cf, op.Ver)
+		if op.Fault == "companion-enospc" {
+			faultPath.Store("")
+			faultArmed.Store(true)
+		}
 		err := rs.Stage.Receive(d.partial("src"), rd)
+		if op.Fault == "companion-enospc" {
+			faultArmed.Store(false)
+			if fp, _ := faultPath.Load().(string); fp != "" {
+				res.Count("companion_write_faults_fired", 1)
+				if fi, e := os.Lstat(fp); e == nil && fi.Mode()&os.ModeSymlink != 0 {
+					_ = os.Remove(fp) // the disk has room again
+				}
+				if err == nil {
+					res.Count("receives_acked_despite_companion_fault", 1)
+				}
+			}
+		}
 		op.Ack = err == nil
 		apply(cf, op.Ver, op.Beg, op.End, rd.fed, err, opi)
 		res.Count("receives", 1)
@@ -411,6 +447,9 @@ func c09Run(c *Ctx, idx int, rng *rand.Rand, sc *c09Scenario, dir string) {
 			}
 		case 1:
 			op.Reader = fmt.Sprintf("err:%d", rng.Int63n(e-b))
+		}
+		if !concurrent && rng.Intn(8) == 0 {
+			op.Fault = "companion-enospc"
 		}
 		sc.Ops = append(sc.Ops, op)
 		opi := len(sc.Ops) - 1
